@@ -136,6 +136,14 @@ impl Mul<F> for F { type Output = F;
         (self@ >= 0real && 0real <= rhs@ <= 1real) ==> r@ <= self@,
         (rhs@ >= 0real && 0real <= self@ <= 1real) ==> r@ <= rhs@,
     { unimplemented!() } }
+impl<'a> vstd::std_specs::ops::MulSpecImpl<F> for &'a F {
+    open spec fn obeys_mul_spec() -> bool { false }
+    open spec fn mul_req(self, rhs: F) -> bool { true }
+    open spec fn mul_spec(self, rhs: F) -> F { arbitrary() }
+}
+impl<'a> Mul<F> for &'a F { type Output = F;
+    #[verifier::external_body]
+    fn mul(self, rhs: F) -> (r: F) ensures r@ == self@ * rhs@ { unimplemented!() } }
 // Division never traps (like the hardware); the quotient by zero is unspecified (div0_r).
 impl vstd::std_specs::ops::DivSpecImpl<F> for F {
     open spec fn obeys_div_spec() -> bool { false }
